@@ -41,8 +41,19 @@ Definition spec_add (s : store) (a : addq) : store * out :=
   | None => (s, OErr)
   end.
 
+(* the direct calls: annotations, resources and data sets are removed by handle (a handle that is
+   gone is an error that changes nothing); data and keys, in strict mode, when they are still there *)
+Definition spec_rm (s : store) (it : item) : store :=
+  match it with
+  | IAnn a => fst (step s (RmAnn (ByHandle a)))
+  | IRes r => fst (step s (RmRes (ByHandle r)))
+  | ISet d => fst (step s (RmSet (ByHandle d)))
+  | IData d x => if item_live s it then fst (step s (RmData (ByHandle d) (ByHandle x) true)) else s
+  | IKey d k => if item_live s it then fst (step s (RmKey (ByHandle d) (ByHandle k) true)) else s
+  | IText _ _ _ => s
+  end.
 Definition spec_delete (s : store) (x : nat) (sub : query) : store * out :=
-  match delete_handles x sub (sem s [] sub) with
-  | Some hs => (fold_left (fun s a => fst (step s (RmAnn (ByHandle a)))) hs s, OOk 0)
+  match delete_items x sub (sem s [] sub) with
+  | Some its => if existsb is_text_item its then (s, OErr) else (fold_left spec_rm its s, OOk 0)
   | None => (s, OErr)
   end.
